@@ -3,6 +3,8 @@ import DSV.Model.Codec
 import DSV.Model.FilterParse
 import DSV.Model.Backend
 import DSV.Model.Hint
+import DSV.Model.Meta
+import DSV.Model.Gc
 /-!
 Line-protocol driver: one request per line on stdin, one reply per line on stdout.
 First token selects the model function.  Imports only `DSV.Model.*` (core Lean), so it links natively.
@@ -281,6 +283,167 @@ def handleHint (cmd : String) (args : List String) : String :=
       | _, _ => "bad-op"
   | _, _ => "bad-op"
 
+/-! #### metadata algebra -/
+open DSV.Meta in
+def parseP (s : String) : Option P :=
+  if s = "-" then some P.none else if s = "r" then some P.root else s.toNat?.map P.id
+
+open DSV.Meta in
+def showP : P → String
+  | .none => "-" | .root => "r" | .id n => toString n
+
+def parseOptInt (s : String) : Option (Option Int) :=
+  if s = "-" then some none else (parseInt? s).map some
+
+def parseOptNat (s : String) : Option (Option Nat) :=
+  if s = "-" then some none else s.toNat?.map some
+
+open DSV.Meta in
+def parseMetaOp (t : String) : Option Op :=
+  match t.splitOn ":" with
+  | ["add", now, id, c] => do
+      let n ← now.toNat?
+      let i ← id.toNat?
+      let cc ← parseOptNat c
+      pure (.add n i cc)
+  | ["exp", c] => c.toNat?.map .expireOnly
+  | ["del", i] => i.toNat?.map .del
+  | ["ret", r] => (parseOptInt r).map .setRetention
+  | ["pm", r] => (parseOptInt r).map .setPrevMax
+  | _ => none
+
+open DSV.Meta in
+def showSnaps (l : List Snap) : String :=
+  if l.isEmpty then "-" else ",".intercalate (l.map fun s => s!"{s.id}/{s.ts}/{s.seq}/{showP s.parent}")
+
+open DSV.Meta in
+def showMeta (m : Meta) : String :=
+  s!"cur={showP m.cur} lastSeq={m.lastSeq} snaps={showSnaps m.snaps} log=" ++
+    (if m.log.isEmpty then "-" else ",".intercalate (m.log.map fun e => s!"{e.ts}/{e.id}"))
+
+open DSV.Meta in
+def parseSnap (t : String) : Option Snap :=
+  match t.splitOn "/" with
+  | [i, ts, p] => do
+      let id ← i.toNat?
+      let tt ← ts.toNat?
+      let pp ← parseP p
+      pure { id := id, ts := tt, seq := 0, parent := pp, born := 0, orig := pp }
+  | _ => none
+
+open DSV.Meta in
+def parseSnapList (s : String) : Option (List Snap) :=
+  if s = "-" then some [] else (s.splitOn ",").mapM parseSnap
+
+open DSV.Meta in
+def handleMeta (cmd : String) (args : List String) : String :=
+  match cmd, args with
+  | "meta.run", ops =>
+      match ops.mapM parseMetaOp with
+      | some l => showMeta (run l)
+      | none => "bad-op"
+  | "meta.repoint", [all, kept] =>
+      match parseSnapList all, (if kept = "-" then some [] else (kept.splitOn ",").mapM String.toNat?) with
+      | some a, some k =>
+          let keptS := a.filter fun s => k.contains s.id
+          showSnaps (repoint a keptS)
+      | _, _ => "bad-op"
+  | "meta.bytime", [snaps, t] =>
+      match parseSnapList snaps, t.toNat? with
+      | some a, some tt =>
+          let m : Meta := { empty with snaps := a }
+          match byTime tt m with | some s => toString s.id | none => "-"
+      | _, _ => "bad-op"
+  | "meta.recent", [snaps, log] =>
+      match parseSnapList snaps, (if log = "-" then some [] else (log.splitOn ",").mapM String.toNat?) with
+      | some a, some l =>
+          let m : Meta := { empty with snaps := a, log := l.map fun i => ⟨0, i, 0⟩ }
+          showP (mostRecent m)
+      | _, _ => "bad-op"
+  | "meta.stamp", [pm, old, baseTs, f] =>
+      let parseLog (s : String) : Option (List (Nat × Nat)) :=
+        if s = "-" then some [] else (s.splitOn ",").mapM fun e =>
+          match e.splitOn "/" with
+          | [a, b] => match a.toNat?, b.toNat? with
+              | some x, some y => some (x, y)
+              | _, _ => none
+          | _ => none
+      match parseOptInt pm, parseLog old, baseTs.toNat?, f.toNat? with
+      | some k, some l, some bt, some ff =>
+          let new : Meta := { empty with mlog := l, prevMax := k }
+          let base : Meta := { empty with lastUpdated := bt }
+          let r := stamp 0 (some ff) base new
+          if r.mlog.isEmpty then "-" else ",".intercalate (r.mlog.map fun e => s!"{e.1}/{e.2}")
+      | _, _, _, _ => "bad-op"
+  | "meta.rewrite", [es, del] =>
+      let parseE (t : String) : Option Entry :=
+        match t.splitOn "/" with
+        | [f, st, sn, sq] => do
+            let ff ← f.toNat?
+            let s1 ← st.toNat?
+            let a ← parseOptNat sn
+            let b ← parseOptNat sq
+            pure ⟨ff, s1, a, b⟩
+        | _ => none
+      let showO (o : Option Nat) : String := match o with | some n => toString n | none => "-"
+      match (if es = "-" then some [] else (es.splitOn ",").mapM parseE),
+            (if del = "-" then some [] else (del.splitOn ",").mapM String.toNat?) with
+      | some l, some d =>
+          match rewrite l d with
+          | none => "dropped"
+          | some (same, out) => (if same then "same " else "new ") ++
+              (if out.isEmpty then "-" else ",".intercalate (out.map fun e => s!"{e.file}/{e.status}/{showO e.addedSnap}/{showO e.seq}"))
+      | _, _ => "bad-op"
+  | _, _ => "bad-op"
+
+/-! #### garbage collector -/
+def decStr (s : String) : Option (List Char) := (pctDecode s).map String.toList
+
+def encStr (l : List Char) : String :=
+  if l.isEmpty then "%" else
+  String.join (l.map fun c =>
+    if c.isAlphanum || c = '.' || c = '_' || c = '-' || c = '/' then c.toString
+    else String.join ((c.toString.toUTF8.toList).map fun b =>
+      let hex := "0123456789ABCDEF".toList
+      "%" ++ (hex[(b.toNat / 16)]!).toString ++ (hex[(b.toNat % 16)]!).toString))
+
+def decList (s : String) : Option (List (List Char)) :=
+  if s = "-" then some [] else (s.splitOn ",").mapM decStr
+
+open DSV.Gc in
+def handleGc (cmd : String) (args : List String) : String :=
+  match cmd, args with
+  | "gc.norm", [tp, real, p] =>
+      match decStr tp, decStr real, decStr p with
+      | some a, some r, some b => encStr (normalize a r b)
+      | _, _, _ => "bad-op"
+  | "gc.normold", [tp, p] =>
+      match decStr tp, decStr p with
+      | some a, some b => encStr (normalizeOld a b)
+      | _, _ => "bad-op"
+  | "gc.prefix", [tp, real, keeps, listing] =>
+      let parseL (t : String) : Option (List Char × Bool) :=
+        match t.splitOn ":" with
+        | [e, "o"] => (decStr e).map fun x => (x, true)
+        | [e, "y"] => (decStr e).map fun x => (x, false)
+        | _ => none
+      match decStr tp, decStr real, decList keeps, (if listing = "-" then some [] else (listing.splitOn ",").mapM parseL) with
+      | some a, some r, some ks, some ls =>
+          let norm := normalize a r
+          let old := fun f => (ls.find? (·.1 == f)).map (·.2) |>.getD false
+          match gcPrefix norm (ks.map norm) old (ls.map (·.1)) with
+          | none => "abort"
+          | some d => if d.isEmpty then "-" else ",".intercalate (d.map encStr)
+      | _, _, _, _ => "bad-op"
+  | "gc.marker", [tp, real, base, payload] =>
+      let pl : Option (Option (Option (List Char))) :=
+        if payload = "U" then some none else if payload = "E" then some (some none)
+        else if payload.startsWith "T:" then (decStr (payload.drop 2).toString).map fun t => some (some t) else none
+      match decStr tp, decStr real, decStr base, pl with
+      | some a, some r, some b, some p => encStr (markerTarget (normalize a r) b p)
+      | _, _, _, _ => "bad-op"
+  | _, _ => "bad-op"
+
 def handle (line : String) : String :=
   match splitWs line with
   | [] => "bad-op"
@@ -289,6 +452,8 @@ def handle (line : String) : String :=
     else if cmd.startsWith "flt." then handleFilter cmd args
     else if cmd.startsWith "codec." then handleCodec cmd args
     else if cmd.startsWith "hint." then handleHint cmd args
+    else if cmd.startsWith "meta." then handleMeta cmd args
+    else if cmd.startsWith "gc." then handleGc cmd args
     else if cmd.startsWith "rng." || cmd.startsWith "retry." || cmd.startsWith "ls." then handleBackend cmd args
     else "bad-op"
 
